@@ -24,13 +24,14 @@ fn spec() -> Spec {
             Kind { name: "verdicts", quick: 6_000, thorough: 400_000, serial: false },
             Kind { name: "schedules", quick: 60, thorough: 2_000, serial: true },
             Kind { name: "rx160", quick: 48, thorough: 1_500, serial: false },
+            Kind { name: "shared_history", quick: 1_500, thorough: 60_000, serial: false },
         ],
         rule: "verdicts: synthetic cell (box links overlapping at the joints, vertex counts anti-correlated with size, with/without tool and base, 0..3 environment boxes of which most are placed at a designed gap d = r*u, u in [0,2], from a link or the tool) x safety table (touch-only, positive distances with to_environment != to_robot_default, per-pair overrides in both key orders, NEVER_COLLIDES on random pairs incl. pairs naming J1, J_BASE, J_TOOL and environment ids) x mode x posture; collision_details, collides and near(q, other table) are compared with the brute-force triangle/triangle oracle over the property's relevant pair list. schedules: the same query in rayon pools of 1,2,3,4,8,16 threads x repeats x injected delays at task boundaries, results must be identical; the hook event log must show exactly the relevant non-exempt pairs evaluated in all-collisions mode. non-trivial = at least one pair colliding and one free; distinct = hash(cell, posture, table)",
         assumptions: vec![
             "band = 1e-4 m + 1e-5*reach around each threshold is ambiguous (library places meshes in f32, oracle in f64); in touch mode a body wholly inside another without surface contact is ambiguous (parry meshes are surfaces)",
             "tables never contain both key orders of one pair with different values",
         ],
-        minimums: vec![("oracle_evals", 100_000, 5_000_000), ("pairs.colliding", 10_000, 500_000), ("pairs.free", 50_000, 2_500_000), ("pairs.exempt", 2_000, 100_000), ("hook.tasks_observed", 5_000, 150_000)],
+        minimums: vec![("oracle_evals", 100_000, 5_000_000), ("pairs.colliding", 10_000, 500_000), ("pairs.free", 50_000, 2_500_000), ("pairs.exempt", 2_000, 100_000), ("hook.tasks_observed", 5_000, 150_000), ("history.steps", 6_000, 250_000)],
     }
 }
 
@@ -239,6 +240,7 @@ fn run_case(kind: &str, idx: u64, rng: &mut Rng, mon: &mut Mon, _tier: Tier) {
     match kind {
         "verdicts" => verdicts(idx, rng, mon),
         "schedules" => schedules(idx, rng, mon),
+        "shared_history" => shared_history(idx, rng, mon),
         _ => rx160(idx, rng, mon),
     }
 }
@@ -401,6 +403,85 @@ fn verdicts(idx: u64, rng: &mut Rng, mon: &mut Mon) {
     if idx < 2 {
         mon.sample(json!({"kind": "verdicts", "q": jf(&q), "mode": mode_name(mode), "safety": cell.safety.json(), "reported": rep, "oracle_colliding": pairs_json(&oracle.set(Verdict::Colliding)), "relevant_pairs": oracle.pairs.len()}));
     }
+}
+
+/// History workload: two or three cells that share the robot and its meshes but differ in the safety
+/// table, the mode, one obstacle or the tool are asked about bit-identical joint vectors one after the
+/// other (A, B, A, ...), mixing collision_details / collides / near; each answer is judged by that
+/// cell's own oracle. A report may depend on the body, the table and the joint vector only.
+fn shared_history(idx: u64, rng: &mut Rng, mon: &mut Mon) {
+    let mode = pick_mode(rng);
+    let (first, q) = gen_scenario(rng, idx, mode);
+    let mut cells = vec![first.clone()];
+    for _ in 0..(1 + rng.usize(2)) {
+        let mut c = first.clone();
+        match rng.usize(4) {
+            0 => {
+                let m = pick_mode(rng);
+                c.safety = c.random_safety(rng, m);
+            }
+            1 if !c.env.is_empty() => {
+                let k = rng.usize(c.env.len());
+                c.env.remove(k);
+            }
+            2 => {
+                let target = rng.usize(6);
+                let d = rng.range(-0.03, 0.0);
+                c.add_designed_obstacle(rng, &q, target, d);
+            }
+            _ => c.safety.mode = if c.safety.mode == CheckMode::AllCollsions { CheckMode::FirstCollisionOnly } else { CheckMode::AllCollsions },
+        }
+        cells.push(c);
+    }
+    let robots: Vec<_> = cells.iter().map(|c| c.build()).collect();
+    // a second posture close to the first (shares most link poses up to rounding of a cache key)
+    let mut q2 = q;
+    q2[rng.usize(6)] += rng.sign() * rng.logu(1e-9, 0.3);
+    let qs = [q, q2];
+    let n = cells.len();
+    for step in 0..(2 * n + 2) {
+        let r = if step < 2 * n { step % n } else { rng.usize(n) };
+        let qq = qs[if step % 3 == 2 { 1 } else { 0 }];
+        let cell = &cells[r];
+        let m = cell.safety.mode;
+        let oracle = cell.oracle(&qq, &cell.safety);
+        mon.count("history.steps");
+        let api = rng.usize(3);
+        let detail = |extra: serde_json::Value| json!({"cells": cells.iter().map(|c| c.json()).collect::<Vec<_>>(), "cell_index": r, "step": step, "q": jf(&qq), "mode": mode_name(m), "extra": extra, "oracle": oracle_json(&oracle)});
+        match api {
+            0 | 1 => {
+                let rep = if api == 0 { robots[r].collision_details(&qq) } else { robots[r].near(&qq, &cell.safety.build()) };
+                let j = judge_report(cell, &qq, &oracle, &rep, m, if api == 0 { "collision_details" } else { "near" });
+                for (sig, what, ex) in &j.violations {
+                    let sig = if sig.ends_with("(parry)") { sig.clone() } else { format!("history:{}", sig) };
+                    mon.violation(&sig, what, detail(json!({"reported": rep, "finding": ex})));
+                }
+                if j.violations.is_empty() {
+                    mon.held_n(oracle.pairs.len() as u64);
+                }
+            }
+            _ => {
+                let c = robots[r].collides(&qq);
+                let nc = oracle.set(Verdict::Colliding).len();
+                let expect_true = nc > 0 && m != CheckMode::NoCheck;
+                let expect_false = m == CheckMode::NoCheck || (nc == 0 && !oracle.any_ambiguous());
+                if expect_true && !c {
+                    let cs = oracle.set(Verdict::Colliding);
+                    let k = *cs.iter().find(|k| !miss_signature(cell, &qq, "collides", k.0, k.1, &oracle.pairs[*k]).ends_with("(parry)")).unwrap_or(cs.iter().next().unwrap());
+                    let sig = miss_signature(cell, &qq, "collides", k.0, k.1, &oracle.pairs[&k]);
+                    let sig = if sig.ends_with("(parry)") { sig } else { format!("history:{}", sig) };
+                    mon.violation(&sig, "collides() is false although a relevant pair is closer than its safety distance", detail(json!({"pair": [k.0, k.1]})));
+                } else if expect_false && c {
+                    mon.violation(&format!("history:collides:false-collision:{}", mode_name(m)), "collides() is true although every relevant pair is free (or checking is off)", detail(json!({})));
+                } else if expect_true || expect_false {
+                    mon.held();
+                } else {
+                    mon.inconclusive("collides:only-ambiguous-pairs");
+                }
+            }
+        }
+    }
+    mon.nontrivial(hash_combine(idx ^ 0x51ed, hash_f64s(&q)));
 }
 
 fn schedules(idx: u64, rng: &mut Rng, mon: &mut Mon) {
